@@ -89,6 +89,12 @@ func classes(s Stats) []string {
 	add(s.LocalhostInboundRejected > 0, "localhost-inbound-from-nonlocal")
 	add(s.AllowedArrivalCopy > 0, "arrival-face-is-downstream")
 	add(s.LapsedAllowed > 0, "lapsed-or-uncertain-in-record-at-data")
+	add(s.FaceDown > 0, "face-removed")
+	add(s.FaceUp > 0, "face-added")
+	add(s.FaceDown > 0 && s.FaceUp > 0, "face-removed-and-another-added")
+	add(s.VanishedArrival > 0, "arrival-face-vanished-while-packet-queued")
+	add(s.DataForGoneFace > 0, "data-for-in-record-of-removed-face")
+	add(s.HopViaGoneFace > 0, "next-hop-is-a-removed-face")
 	return cl
 }
 
